@@ -12,7 +12,7 @@ type userFunction struct {
 	// must not get at them through the function value)
 	parameters []*ast.Identifier
 	block      *ast.BlockStatement
-	program    *ast.Program // the template the function was written in
+	source     string // the text of the template the function was written in
 }
 
 func (f *userFunction) String() string {
